@@ -11,10 +11,11 @@
    for regularSample), positivity for every simple counter-clockwise contour (no formal notion of simple), ellipse and
    circle signs -- all watched by the search against exact Green integrals. *)
 
+From Flocq Require Import Core.   (* bpow, radix2 for the float statements; imported first so that [float] below is PrimFloat.float *)
 From Coq Require Import PrimFloat.
 From Coq Require Import ZArith List Bool Reals Lra Permutation.
 From Coquelicot Require Import Coquelicot.
-From BZ Require Import Base.Ops Gen.Point Gen.Affine Gen.Line Gen.Quad Gen.Cubic Hand.Shoelace Proofs.C10 Proofs.C10pos Proofs.C10shapes Hand.Shapes Gen.Shapes Proofs.Bridge.
+From BZ Require Import Base.Ops Gen.Point Gen.Affine Gen.Line Gen.Quad Gen.Cubic Hand.Shoelace Proofs.C10 Proofs.C10pos Proofs.C10shapes Hand.Shapes Gen.Shapes Proofs.Bridge Proofs.C10float Base.FloatErr Proofs.C01float.
 Import ListNotations.
 Open Scope R_scope.
 
@@ -187,6 +188,33 @@ Proof. exact @Circle_cubics_opt_gen. Qed.
 Theorem C10_circular_superness_is_generated :
   forall (T : Type) (O : Ops T), circular_superness O = geometricshapes_CIRCULAR_SUPERNESS O.
 Proof. exact @circular_superness_gen. Qed.
+Theorem C10_line_area_float_close :
+  forall M (s : seg2 float), M <= Acap -> seg2_ok M s -> val_close (Line_area FOps s) (Line_area ROps (seg2R s)) (9 * u * (M * M) + 5 * eta * M + 2 * eta).
+Proof. exact line_area_float_close. Qed.
+Theorem C10_quad_area_float_close :
+  forall M (s : seg3 float), M <= Acap -> seg3_ok M s -> val_close (Quad_area FOps s) (Quad_area ROps (seg3R s)) (20 * u * (M * M) + 7 * eta).
+Proof. exact quad_area_float_close. Qed.
+Theorem C10_cubic_area_float_close :
+  forall M (s : seg4 float), M <= Acap -> seg4_ok M s -> val_close (Cubic_area FOps s) (Cubic_area ROps (seg4R s)) (28 * u * (M * M) + 7 * eta).
+Proof. exact cubic_area_float_close. Qed.
+Theorem C10_cubic_area_float_integral :
+  forall M (s : seg4 float), M <= Acap -> seg4_ok M s -> val_close (Cubic_area FOps s) (RIntR (fun t => py (Cubic_pointAtTime ROps (seg4R s) t) * px (Quad_pointAtTime ROps (Cubic_derivative ROps (seg4R s)) t))) (28 * u * (M * M) + 7 * eta).
+Proof. exact cubic_area_float_integral. Qed.
+Theorem C10_line_area_reversed_float :
+  forall M (s : seg2 float), M <= Acap -> seg2_ok M s -> neg_close (Line_area FOps (Line_reversed FOps s)) (Line_area FOps s) (2 * (9 * u * (M * M) + 5 * eta * M + 2 * eta)).
+Proof. exact line_area_reversed_float. Qed.
+Theorem C10_quad_area_reversed_float :
+  forall M (s : seg3 float), M <= Acap -> seg3_ok M s -> neg_close (Quad_area FOps (Quad_reversed FOps s)) (Quad_area FOps s) (2 * (20 * u * (M * M) + 7 * eta)).
+Proof. exact quad_area_reversed_float. Qed.
+Theorem C10_cubic_area_reversed_float :
+  forall M (s : seg4 float), M <= Acap -> seg4_ok M s -> neg_close (Cubic_area FOps (Cubic_reversed FOps s)) (Cubic_area FOps s) (2 * (28 * u * (M * M) + 7 * eta)).
+Proof. exact cubic_area_reversed_float. Qed.
+Theorem C10_cubic_area_float_1e14 :
+  forall M (s : seg4 float), M <= Acap -> seg4_ok M s -> val_close (Cubic_area FOps s) (Cubic_area ROps (seg4R s)) (1e-14 * (M * M) + bpow radix2 (-1070)).
+Proof. exact cubic_area_float_1e14. Qed.
+Theorem C10_quad_area_example :
+  val_close (Quad_area FOps ex_quad) (- 4675 / 3) (1e-14 * (150 * 150) + bpow radix2 (-1070)).
+Proof. exact quad_area_example. Qed.
 
 Print Assumptions C10_area_is_integral_line.
 Print Assumptions C10_area_is_integral_quad.
@@ -244,3 +272,12 @@ Print Assumptions C10_Square_is_generated.
 Print Assumptions C10_Ellipse_is_generated.
 Print Assumptions C10_Circle_is_generated.
 Print Assumptions C10_circular_superness_is_generated.
+Print Assumptions C10_line_area_float_close.
+Print Assumptions C10_quad_area_float_close.
+Print Assumptions C10_cubic_area_float_close.
+Print Assumptions C10_cubic_area_float_integral.
+Print Assumptions C10_line_area_reversed_float.
+Print Assumptions C10_quad_area_reversed_float.
+Print Assumptions C10_cubic_area_reversed_float.
+Print Assumptions C10_cubic_area_float_1e14.
+Print Assumptions C10_quad_area_example.
